@@ -175,7 +175,7 @@ Definition vm_fact_names : list string :=
    "add_pops_b_then_a"; "add_concat_a_then_b"; "add_numbers"; "set_item_leaves_nil"; "set_item_operands";
    "not_is_not_truthy"; "negate_is_minus"; "bitnot_via_i64"; "range_end_popped_first"; "jump_forward";
    "loop_backward"; "truthiness"; "call_arity_check"; "call_frame_limit"; "call_pushes_frame"; "return_shape";
-   "closure_descriptors"; "close_upvalue_top"].
+   "closure_descriptors"; "close_upvalue_top"; "set_global_undone_on_failure"; "get_global_reads_only"].
 Definition vm_facts_ok (gen : list (string * bool)) : bool :=
   forallb (fun k => match lookup_s k gen with Some true => true | _ => false end) vm_fact_names.
 
